@@ -183,3 +183,80 @@ Proof.
       apply sat_nil.
   - intros [r [[Hr|[]] F]]. subst r. inversion F; subst. discriminate.
 Qed.
+
+(* ---------------------------------------------------------------------------------
+   Added after seeding: programs with UNDECLARED predicates, whose relation types the
+   checker infers (model Analysis/BoundsInfer.v: inferRelTypes / getOrInferRelTypes, the
+   recursion through `visiting`, the order in which BoundsCheck reaches the predicates as
+   an explicit schedule).  PARTIAL in the same sense as above, and in one more: the
+   certificate is that the whole program - the clauses of the undeclared predicates
+   included - passes the checker of Bounds.v, flag set, when the inferred relation types
+   are taken as declarations (`certified`); the model computes that certificate, the Go
+   code does not check it.  Fragment: no mutual recursion between undeclared predicates
+   (self-recursion is covered). *)
+From MV Require Import Analysis.BoundsInfer Analysis.BoundsInferProofs.
+
+Theorem bounds_sound_inferred_partial :
+  forall (D : decls) (R : list clause) (init : list fact) (sched : list (Z * Z * bool))
+         (E : decls) (e : bool) (B : fact -> Prop),
+    check_program_inf D R init sched = Ok ((true, Some E), e) ->
+    certified E R init = true ->
+    (forall f, B f ->
+       In f init \/
+       (is_declared D (fst f) = true /\
+        match lookup_decl (fst f) D with
+        | Some rows => exists r, In r rows /\ Forall2 (fun t c => T.has_type t (inj c) = true) r (snd f)
+        | None => True
+        end)) ->
+    forall f, lfp R B f ->
+      match lookup_decl (fst f) D with
+      | Some rows => exists r, In r rows /\ Forall2 (fun t c => T.has_type t (inj c) = true) r (snd f)
+      | None => True
+      end.
+Proof. exact bounds_sound_inferred. Qed.
+Print Assumptions bounds_sound_inferred_partial.
+
+Theorem bounds_sound_inferred_strata_partial :
+  forall (D : decls) (P : list clause) (init : list fact) (sched : list (Z * Z * bool))
+         (E : decls) (e : bool),
+    check_program_inf D P init sched = Ok ((true, Some E), e) ->
+    certified E P init = true ->
+    forall (layers : list (list Z)) (B : fact -> Prop),
+    (forall f, B f ->
+       In f init \/
+       (is_declared D (fst f) = true /\
+        match lookup_decl (fst f) D with
+        | Some rows => exists r, In r rows /\ Forall2 (fun t c => T.has_type t (inj c) = true) r (snd f)
+        | None => True
+        end)) ->
+    forall f, slfp P layers B f ->
+      match lookup_decl (fst f) D with
+      | Some rows => exists r, In r rows /\ Forall2 (fun t c => T.has_type t (inj c) = true) r (snd f)
+      | None => True
+      end.
+Proof. exact bounds_sound_inferred_strata. Qed.
+Print Assumptions bounds_sound_inferred_strata_partial.
+
+(* non-vacuity and the witness of the seeded change C11-1:
+     Decl p0(X) bound [/number].   Decl p1(X,Y) bound [/number,/string] bound [/string,/a].
+     p5(X) :- p0(X).   p5(X) :- p5(Y), p1(Y,X).        (p5 undeclared, reached on demand)
+     p2(X) :- p5(X).
+   With Decl p2(X) bound [/number] bound [/string] bound [/a] the program passes and is
+   certified; with Decl p2(X) bound [/number] bound [/string] (the types reachable within
+   one step) the model rejects it - the seeded change accepted it and p2(/a/x) was stored. *)
+Definition inf_D (rows2 : list row) : decls :=
+  [ (0, [[t_number]]); (1, [[t_number; t_string]; [t_string; ex_name [97]]]); (2, rows2) ].
+Definition inf_R : list clause :=
+  [ mkClause (mkAtom 5 [TVar 0]) [PAtom (mkAtom 0 [TVar 0])] [];
+    mkClause (mkAtom 5 [TVar 0]) [PAtom (mkAtom 5 [TVar 1]); PAtom (mkAtom 1 [TVar 1; TVar 0])] [];
+    mkClause (mkAtom 2 [TVar 0]) [PAtom (mkAtom 5 [TVar 0])] [] ].
+Definition inf_E : decls := (5, [[t_number]; [t_string]; [ex_name [97]]]) :: inf_D [[t_number]; [t_string]; [ex_name [97]]].
+
+Example inferred_hypotheses_satisfiable :
+  check_program_inf (inf_D [[t_number]; [t_string]; [ex_name [97]]]) inf_R [] [(5, 1, false)] = Ok ((true, Some inf_E), true) /\
+  certified inf_E inf_R [] = true.
+Proof. vm_compute. split; reflexivity. Qed.
+
+Example inferred_depth_two_rejected :
+  exists E, check_program_inf (inf_D [[t_number]; [t_string]]) inf_R [] [(5, 1, false)] = Ok ((false, Some E), true).
+Proof. eexists. vm_compute. reflexivity. Qed.
